@@ -38,10 +38,10 @@ CHECKS = {
          "Sequential part depth 3..5; the concurrent part is C10's scheduler exploration (programs containing abort and consumer variants that drop the body) and the loom cross-check restricted to programs with an abort and consumers that drop the body.", "3/C11"),
  "C16": ("neg_mc", "exhaustive enumeration of the Accept-Encoding list language (0..3/4 distinct codings x 11 weights x 4 whitespace styles) against an independent RFC 7231 5.3.4 evaluator; all short byte strings for the no-panic clause",
          "should_gzip is compared with the evaluator on every enumerated grammatical value (identity default = least-preferred acceptable, qualities in thousandths); repeated codings, every string of <= 5/7 symbols over 14 symbols (incl. 0xFF and two well-formed multi-byte UTF-8 characters) and every weight string of length <= 6 over {0,1,9,.} must not panic.",
-         "Upper-case codings / 'Q=' / duplicate codings: no claim (statement silent) -- except that any value, grammatical or not, that contains neither 'gzip' (any case) nor '*' must give false. All 1000 pairs of adjacent weights (w-1, w thousandths) between gzip and identity / '*' in six list shapes. Also lists of up to 42 distinct codings with the deciding elements first and last.", "3/C16"),
+         "Upper-case codings / 'Q=' / duplicate codings: no claim (statement silent) -- except that any value, grammatical or not, that contains neither 'gzip' (any case) nor '*' must give false. All 1000 pairs of adjacent weights (w-1, w thousandths) between gzip and identity / '*' in six list shapes. Every ordered pair of 30 neighbouring values as two calls on one thread (the second answer must equal the answer on a fresh thread). Also lists of up to 42 distinct codings with the deciding elements first and last.", "3/C16"),
  "C17": ("neg_mc+stream_mc", "exhaustive enumeration of Accept-Encoding values x gzip level 0..9 x chunk sizes x methods x request representation, real streaming_body + independent decoder",
          "Vary names accept-encoding; Content-Encoding: gzip iff evaluator prefers gzip and level > 0; body sniffed: says gzip <=> exactly one gzip member of the payload, else payload verbatim; Request and Parts representations agree; HEAD same headers and no writer.",
-         "Accept-Encoding values: all C16 lists of <= 2 elements + 20 hand-picked; writer histories: write_all(n), flush, drop for n in {0, 300}; drop only; flush, drop; write_all(300), drop; short/long/short writes without a flush; 40 small writes, flush, one more byte.", "3/C17"),
+         "Accept-Encoding values: all C16 lists of <= 2 elements + 20 hand-picked; writer histories: write_all(n), flush, drop for n in {0, 300}; drop only; flush, drop; write_all(300), drop; short/long/short writes without a flush; 40 small writes, flush, one more byte. Every ordered pair of 20 Accept-Encoding values (letter case, weight spelling, one character apart) as two requests on one thread: judged as usual and compared with the answer on a fresh thread.", "3/C17"),
  "C10": ("sched_mc", "stateless exhaustive exploration of thread interleavings of the real code under a controlled scheduler (decision points: every acquisition of the instrumented mutex, wake(), park, wait, environment choices), depth-first over choice vectors with iterative preemption bounding; cross-checked by a second, independent explorer (loom, DPOR) over the same source files; sequential histories with a wake-up oracle",
          "Every schedule of {producer program} || {consumer loop} for all programs up to length 3 (quick) / 4 (thorough) with unbounded preemptions, longer programs and environment choices (fresh waker per poll, spurious re-polls) at preemption bound 1..2, abort programs, gzip writer; deadlock (= lost wake-up) detection, delivered == accepted on clean end, abort => error, bounded polls after the writer is gone. Each violating schedule is replayed and must reproduce. A family that also preempts inside critical sections (the only way a try_lock can find the mutex held). loom (loomchk/) explores every program of <= 4/5 operations over {W1,W2,W3,F,A} x three waker disciplines x {drain, spurious re-poll} plus bursts of up to 70 queued chunks and gzip programs on the same chunker.rs/gzip.rs compiled in through the hook seam; every single-threaded history up to depth 4/5 is checked for 'the waker of the last Pending poll is woken as soon as data, the end or an abort becomes observable'.",
          "Scheduling granularity = lock acquisition / wake / park (complete for safe code over one Mutex, no atomics); preemption bounds, budgets, caps and program lengths per family are listed in the evidence (thorough: all programs <= 4 ops unbounded, 5 ops at bound 3, 6 ops at bound 2, environment choices at bound 2-3, gzip writer at bound 3 -- the gzip family can hit its per-program cap, in which case `exhaustive` is false); no partial-order reduction.", "2.4, 3/C10"),
@@ -50,10 +50,10 @@ CHECKS = {
          "Also: truncation before the stream is requested on an instance that already served one, growth after construction, two live streams of one instance, new_with_metadata, streams polled inside a multi-thread runtime, joint length / mtime changes around the recent past and the epoch. Runs on the sandbox file system (ns-granular mtimes are probed and the +1ns case is counted as skipped if the fs truncates them). Ranges of >= 2^32 bytes are read from a sparse file (first chunks in quick, to the end in thorough).", "3/C18"),
  "C19": ("fs_mc", "exhaustive enumeration of path strings (1..3/4 segments over 9 segment kinds, slashes, NUL at every position) x Accept-Encoding x auto_gzip against a fixture tree, std::fs + independent negotiation evaluator as reference",
          "Lexical rule decides rejection (InvalidInput); accepted paths must open exactly the inode std::fs opens for base/path (or its .gz sibling when substitution applies), with the same error kind on failure, always inside the base directory; encoding()/add_encoding_headers consistent.",
-         "get() is also awaited under block_on, on a worker thread, inside a LocalSet and in spawn_local; add_encoding_headers also on maps that already hold Vary entries; other request headers (Range ...) in the map given to get() must not matter. No symlinks in the fixture (documented non-goal of the crate); the empty path is excluded from the equality oracle only. Includes names of 250..256 bytes (NAME_MAX boundary for the .gz sibling), a 250+-byte path of short segments, request paths that themselves end in .gz (with and without a .gz.gz sibling), empty files, .gz siblings older / newer / as old as the plain file, names with space, backslash, percent escape and non-ASCII letters.", "3/C19"),
+         "A changing tree under one long-lived FsDir (eleven changes: sibling appears / disappears / is replaced / becomes a directory, plain file replaced / removed, directory becomes a file): after each change every lookup must equal what an instance opened now gives. get() is also awaited under block_on, on a worker thread, inside a LocalSet and in spawn_local; add_encoding_headers also on maps that already hold Vary entries; other request headers (Range ...) in the map given to get() must not matter. No symlinks in the fixture (documented non-goal of the crate); the empty path is excluded from the equality oracle only. Includes names of 250..256 bytes (NAME_MAX boundary for the .gz sibling), a 250+-byte path of short segments, request paths that themselves end in .gz (with and without a .gz.gz sibling), empty files, .gz siblings older / newer / as old as the plain file, names with space, backslash, percent escape and non-ASCII letters.", "3/C19"),
  "C12": ("serve_mc+stream_mc", "per-step monitor (size_hint, is_end_stream sampled before every poll) attached to every execution of the C01, C06, C08, C09, C11 explorations, plus all Body::from conversions",
          "Retrospective check on every sample of every explored body: lower <= bytes still delivered <= upper on clean ends, exact hints for serve/Body::from bodies, is_end_stream never followed by bytes or an error, streaming body never at end while chunks or an abort are pending.",
-         "Same bounds as the explorations it rides on.", "3/C12"),
+         "Same bounds as the explorations it rides on. A frame (even an empty one) delivered after an end-of-stream claim counts as a lie.", "3/C12"),
  "C13": ("serve_mc", "exhaustive enumeration of all byte strings up to a length bound over the parsers' branch characters in each of six request headers, boundary numbers, repeated lines, header pairs, 11 methods, 12 entities",
          "No panic in serve() or while draining (+3 polls), status within the documented set, 405 + Allow + no entity read for other methods. Both with overflow checks/debug assertions on and (thorough) off.",
          "'Arbitrary bytes' is bounded-exhaustive over a 16-symbol alphabet incl. 0xFF and two well-formed multi-byte UTF-8 characters (<= 4 symbols quick, <= 6 thorough, after each of 4 prefixes), not all strings.", "3/C13"),
